@@ -62,7 +62,7 @@ class ModelServer:
         self.log.append((method, url, dict(headers or {}), fault))
         if fault == "conn":
             raise real_requests.exceptions.ConnectionError("connection dropped")
-        if fault in (404, 500, 503, 403):
+        if isinstance(fault, int) and 400 <= fault < 600:
             return Response(fault, b"<html>error</html>", url)
         data = self._lookup(url)
         if data is None:
